@@ -187,9 +187,21 @@ def _verify(ex, ctx, fi, contract, res):
         ps.ghost["__deferred__"] = []
         nob = len(ctx.obls)
         ends = ex.exec_block(fnode.body, [ps])
+        live = 0
         for e in ends:
             n_exit += 1
             _exit_obligations(ex, ctx, fi, contract, e, deferred, ghost_env, rty, n_exit)
+            if live == 0:
+                s2 = z3.Solver()
+                s2.set("timeout", 5000)
+                for p in e.hyps():
+                    s2.add(p)
+                if s2.check() != z3.unsat:
+                    live += 1
+        if ends and live == 0:
+            # every exit has a contradictory path condition (e.g. an assumed callee postcondition that is false at
+            # the call site): all obligations of this function would be vacuously true
+            ctx.obls.append(Obligation("vacuity/some-exit-reachable", "vacuity", [], z3.BoolVal(False), fi.module.path))
     if not sat_pre:
         ctx.obls.append(Obligation("vacuity/requires-satisfiable", "vacuity", [], z3.BoolVal(False), fi.module.path))
     res.raw = ctx.obls
@@ -399,6 +411,21 @@ def solve_obligation(ob, timeout_ms=10000, want_model=True):
     if r == z3.sat:
         m = s.model() if want_model else None
         return "refuted", "z3", dt, m
+    # z3's quantifier instantiation is sensitive to internal ordering: the same VC takes 1 s or times out.
+    # Retry with other configurations (an `unsat` answer is sound in every configuration).
+    for cfg in ({"smt.mbqi": False}, {"smt.random_seed": 11}, {"smt.random_seed": 23, "smt.mbqi": False}, {"smt.random_seed": 37}):
+        s2 = z3.Solver()
+        s2.set("timeout", max(3000, timeout_ms // 2))
+        try:
+            for k2, v2 in cfg.items():
+                s2.set(k2, v2)
+        except z3.Z3Exception:
+            continue
+        for h in ob.hyps:
+            s2.add(h)
+        s2.add(z3.Not(g))
+        if s2.check() == z3.unsat:
+            return "proved", "z3", time.time() - t0, None
     # sums: congruence preprocessing (pointwise equal bodies => equal sums), then z3 again
     try:
         from .bigsum import prove_with_congruence
